@@ -272,6 +272,8 @@ Record case := mkCase
     c_fast : option api;         (* Go parser's AST of the formatted text *)
     c_idem : bool;               (* format.Source(formatted) = formatted, byte for byte *)
     c_file_ok : bool;            (* format.File on a file holding the source = format.Source *)
+    c_conc_ok : bool;            (* formatted again by 8 goroutines at once, between all the other
+                                    programs of the run: the same text / the same kind of outcome *)
     c_strict : bool;             (* judge the comments at full strength (no comment may be lost) *)
     c_muts : list outcome }.     (* format.Source on mutated (mostly invalid) variants *)
 
@@ -344,12 +346,13 @@ Definition prop_ok (c : case) : bool :=
     match c_pout c, c_fout c with OErr, OErr => true | _, _ => false end
   end
   && c_file_ok c
+  && c_conc_ok c
   && forallb not_crash (c_muts c).
 
 (* diagnosis for replay files: which conjunct of [prop_ok] failed, and the model's own outputs *)
 Record diag := Diag
   { d_layout : bool; d_meaning : bool; d_no_invented_cmt : bool; d_placed_cmts_kept : bool;
-    d_all_cmts_kept : bool; d_idem : bool; d_file : bool; d_muts : bool;
+    d_all_cmts_kept : bool; d_idem : bool; d_file : bool; d_conc : bool; d_muts : bool;
     d_placed : list string }.
 Definition diagnose (c : case) : option diag :=
   match c_ast c with
@@ -362,7 +365,7 @@ Definition diagnose (c : case) : option diag :=
                (subseq out src)
                (mark_consistent a && subseq placed out)
                (list_eqb String.eqb src out)
-               (c_idem c) (c_file_ok c) (forallb not_crash (c_muts c)) placed)
+               (c_idem c) (c_file_ok c) (c_conc_ok c) (forallb not_crash (c_muts c)) placed)
   | None => None
   end.
 Definition model_obs (c : case) := (diagnose c, parse (c_toks c), fmt (c_toks c)).
